@@ -5,10 +5,8 @@ package main
 
 import (
 	"bufio"
-	"encoding/json"
 	"fmt"
 	"os"
-	"regexp"
 	"sort"
 	"strconv"
 	"strings"
@@ -17,85 +15,9 @@ import (
 	"gvh/loaderlab"
 	"gvh/plan"
 
-	"github.com/tidwall/gjson"
 	"github.com/wundergraph/astjson"
 	"github.com/wundergraph/graphql-go-tools/v2/pkg/engine/resolve"
 )
-
-func valueErrKind(msg string) int {
-	switch {
-	case strings.HasPrefix(msg, "Cannot return null for non-nullable field"):
-		return 1
-	case strings.HasPrefix(msg, "Object cannot represent non-object value"):
-		return 2
-	case strings.Contains(msg, "for __typename field"):
-		return 3
-	case strings.HasPrefix(msg, "String cannot represent non-string value"):
-		return 4
-	case strings.HasPrefix(msg, "Bool cannot represent non-boolean value"):
-		return 5
-	case strings.HasPrefix(msg, "Int cannot represent non-integer value"):
-		return 6
-	case strings.HasPrefix(msg, "Float cannot represent non-float value"):
-		return 7
-	case strings.HasPrefix(msg, "Enum \""):
-		return 8
-	case strings.HasPrefix(msg, "Invalid value found for"):
-		return 9
-	case strings.HasPrefix(msg, "Array cannot represent non-array value"):
-		return 10
-	case strings.HasPrefix(msg, "Unable to resolve field"):
-		return 11
-	case strings.HasPrefix(msg, "Unauthorized to load field"):
-		return 12
-	}
-	return 99
-}
-
-var reFetchErr = regexp.MustCompile(`^Failed to fetch from Subgraph '([^']*)' at Path '([^']*)'(?:, Reason: (.*))?\.$`)
-var reStatus = regexp.MustCompile(`^\d+(: .*)?$`)
-
-// classify one entry of the response's errors array: (l kind fid) loader error, (v kind path) value completion
-func classifyErr(p *loaderlab.Plan, item gjson.Result) string {
-	msg := item.Get("message").String()
-	if m := reFetchErr.FindStringSubmatch(msg); m != nil {
-		fid := -1
-		for _, f := range p.Fetches {
-			if f.DSName() == m[1] && f.ResponsePath() == m[2] {
-				fid = f.ID
-			}
-		}
-		kind := 1
-		switch {
-		case m[3] == "":
-			kind = 1
-		case m[3] == "empty response":
-			kind = 2
-		case m[3] == "invalid JSON":
-			kind = 3
-		case m[3] == "no data or errors in response":
-			kind = 4
-		case strings.HasPrefix(m[3], "returned entities count does not match"):
-			kind = 5
-		default:
-			kind = 98
-		}
-		return common.L("l", common.I(kind), common.I(fid))
-	}
-	if reStatus.MatchString(msg) {
-		return "(l 6 -1)"
-	}
-	ps := []string{"path"}
-	item.Get("path").ForEach(func(_, pe gjson.Result) bool {
-		if pe.Type == gjson.String {
-			ps = append(ps, common.L("n", common.QS(pe.String())))
-		} else {
-			ps = append(ps, common.L("i", common.I(int(pe.Int()))))
-		}
-		return true
-	})
-	return common.L("v", common.I(valueErrKind(msg)), common.L(ps...))
-}
 
 type faultSet map[int]loaderlab.FaultKind
 
@@ -131,47 +53,15 @@ func runSexp(p *loaderlab.Plan, fs faultSet, res *loaderlab.Result) string {
 		status = "error"
 	}
 	out := res.Out
-	valid := json.Valid(out)
-	env := false
-	nerr := 0
-	errs := []string{"errs"}
-	data := "(none)"
-	draw := ""
-	if valid && status == "ok" {
-		g := gjson.ParseBytes(out)
-		want := "{"
-		if e := g.Get("errors"); e.Exists() {
-			want += `"errors":` + e.Raw + ","
-			e.ForEach(func(_, item gjson.Result) bool {
-				nerr++
-				errs = append(errs, classifyErr(p, item))
-				return true
-			})
-		}
-		draw = g.Get("data").Raw
-		want += `"data":` + draw + "}"
-		env = want == string(out)
-	}
-	if !valid && status == "ok" {
-		// not JSON: cut the data member out of the envelope textually (for the model comparison)
-		so := string(out)
-		if strings.HasPrefix(so, `{"data":`) && strings.HasSuffix(so, "}") {
-			draw = so[len(`{"data":`) : len(so)-1]
-		} else if i := strings.LastIndex(so, `],"data":`); i >= 0 && strings.HasSuffix(so, "}") {
-			draw = so[i+len(`],"data":`) : len(so)-1]
-		}
-	}
+	o := loaderlab.Observation{DataSexp: "(none)"}
 	if status == "ok" {
-		if ov, e := astjson.ParseBytes(out); e == nil && ov.Get("data") != nil {
-			data = common.L("some", plan.JSONSexp(ov.Get("data")))
-		}
+		o = p.Observe(out)
 	}
-	sort.Strings(errs[1:])
+	errs := append([]string{"errs"}, o.Errs...)
 	reqs := []string{"reqs"}
 	rs := append([]loaderlab.Request{}, res.Requests...)
 	sort.SliceStable(rs, func(i, j int) bool { return rs[i].FetchID < rs[j].FetchID })
 	for _, rq := range rs {
-		f := p.Fetches[rq.FetchID]
 		hdr, ftr := "=", "="
 		reps := []string{"reps"}
 		if rq.BadInput {
@@ -180,7 +70,6 @@ func runSexp(p *loaderlab.Plan, fs faultSet, res *loaderlab.Result) string {
 		for _, r := range rq.Reps {
 			reps = append(reps, common.QS(r))
 		}
-		_ = f
 		reqs = append(reqs, common.L("rq", common.I(rq.FetchID), common.QS(rq.DS), hdr, ftr, common.L(reps...)))
 	}
 	detail := ""
@@ -190,8 +79,8 @@ func runSexp(p *loaderlab.Plan, fs faultSet, res *loaderlab.Result) string {
 	if res.Panic != "" {
 		detail = res.Panic
 	}
-	return common.L("run", fs.sexp(), common.L("st", status, common.QS(detail)), common.L("out", common.Q(out)), common.L("valid", common.B(valid)),
-		common.L("env", common.B(env)), common.L("nerr", common.I(nerr)), common.L(errs...), common.L("data", data), common.L("draw", common.QS(draw)), common.L(reqs...),
+	return common.L("run", fs.sexp(), common.L("st", status, common.QS(detail)), common.L("out", common.Q(out)), common.L("valid", common.B(o.Valid)),
+		common.L("env", common.B(o.Env)), common.L("nerr", common.I(o.NErr)), common.L(errs...), common.L("data", o.DataSexp), common.L("draw", common.QS(o.DataRaw)), common.L(reqs...),
 		common.L("us", common.I64(res.Elapsed.Microseconds())))
 }
 
